@@ -217,6 +217,11 @@ func PanicInLibrary(stack string) bool {
 		if !seenPanic || strings.HasPrefix(l, "\t") {
 			continue
 		}
+		if strings.HasPrefix(l, "verifsim/props.(*P") || strings.HasPrefix(l, "verifsim/props.(*Z") || strings.HasPrefix(l, "verifsim/props.P") || strings.HasPrefix(l, "verifsim/props.Z") {
+			// methods of the zoo's user-defined message / marshaler types: user
+			// code the library calls back into; what matters is who called it
+			continue
+		}
 		if strings.HasPrefix(l, "github.com/segmentio/encoding/verifshim/") || strings.HasPrefix(l, "verifsim/") {
 			return false
 		}
